@@ -339,6 +339,12 @@ func findEntries(l *loaded, re string, tier string) ([]*EntrySpec, error) {
 						tgt = pkgPath + "." + tgt
 					}
 					e.Redirects[fields[0]] = tgt
+					for i, nr := range e.NoRedirect {
+						if nr == fields[0] {
+							e.NoRedirect = append(e.NoRedirect[:i], e.NoRedirect[i+1:]...)
+							break
+						}
+					}
 				case "noredirect":
 					delete(e.Redirects, fields[0])
 					e.NoRedirect = append(e.NoRedirect, fields[0])
